@@ -151,15 +151,21 @@ def r13_7(ck: Check, rule: str = "R13.7") -> None:
         if not q.startswith("skepticoin.consensus.") or q not in ck.repo.functions:
             continue
         s = ck.summ(q, 0)
-        got = sorted({exc_class(e) for e in s.raises() if not e.chain})
+        # `assert` statements document invariants (an added assert that restates a guard is not a new rejection): raise statements only
+        got = sorted({exc_class(e) for e in s.raises() if not e.chain and e.kind == "raise"})
+        want = [c for c in want if c != "AssertionError"]
+        if not want:
+            continue
         n += 1
         construct = "%s raises only %s" % (short(q), ", ".join(c.split(".")[-1] for c in want))
         extra = [c for c in got if c not in want]
+        if not extra and got != sorted(want) and any(c not in got for c in want):
+            extra = ["(no longer raises %s)" % [c.split(".")[-1] for c in want if c not in got]]
         if extra:
             ck.violated(rule, construct, "now also raises %s: handlers written for the recorded classes no longer see this rejection" % extra, s.fi.loc)
         else:
             ck.ok(rule, construct, "", s.fi.loc)
-    ck.expect_count(rule, "validators with recorded rejection classes", n, 12)
+    ck.expect_count(rule, "validators with recorded rejection classes", n, 10)
     for cq, anc in sorted(ref["ancestors"].items()):
         if cq not in ck.repo.classes:
             continue
